@@ -347,7 +347,8 @@ func Exec(line string) hx.Result {
 	if proj == "decode-error" {
 		return hx.Result{Obs: proj + " ## " + strict, Viol: viol}
 	}
-	if dec := observe(mustDecode(b), c.blank, c.pats); dec != orig {
+	dHeld := mustDecode(b) // a decoded automaton kept until the end of the case
+	if dec := observe(dHeld, c.blank, c.pats); dec != orig {
 		viol = append(viol, hx.Fail("C14:roundtrip-differs", "decoded automaton differs from the original: original %s decoded %s", short(orig, 300), short(dec, 300)))
 	}
 	// through encoding/gob
@@ -400,9 +401,16 @@ func Exec(line string) hx.Result {
 			viol = append(viol, hx.Fail("C14:encoding-overwritten", "a []byte returned by GobEncode changed during later calls"))
 		}
 	}
-	// the first result of GobEncode, held all along, is still the encoding of d
+	// the first result of GobEncode, held all along, is still the encoding of d; the automaton
+	// decoded first and the original still behave as at the start
 	if !bytes.Equal(bHeld, b) {
 		viol = append(viol, hx.Fail("C14:encoding-overwritten", "the []byte returned by GobEncode changed during later GobEncode/GobDecode calls on other automata"))
+	}
+	if o := observe(dHeld, c.blank, c.pats); o != orig {
+		viol = append(viol, hx.Fail("C14:decoded-overwritten", "an automaton returned by GobDecode changed during later GobEncode/GobDecode calls on other automata: at first %s now %s", short(orig, 300), short(o, 300)))
+	}
+	if o := observe(d, c.blank, c.pats); o != orig || dumpString(d) != origDump {
+		viol = append(viol, hx.Fail("C14:encode-modifies", "the original automaton changed during the GobEncode/GobDecode calls of the case"))
 	}
 	obs := proj + " ## " + strict
 
@@ -900,9 +908,16 @@ func genForeign(g *hx.Gen) {
 	// random combinations on the other shapes: wide nodes, chains across 127/255 nodes, many words
 	for i, n := 0, g.Pick(150, 4000); i < n; i++ {
 		var ws [][]byte
+		forceMinimal := false
 		switch r.Intn(5) {
 		case 0:
-			ws = wide(r, []int{2, 3, 16, 126, 127, 128, 129, 255, 256}[r.Intn(9)], 40000)
+			// (the model follows the rescans of shared nodes below a wide node: keep most of them narrow)
+			k := []int{2, 3, 16, 100, 126, 127, 128, 129}[r.Intn(8)]
+			if r.Chance(1, 8) {
+				k = r.Range(254, 256)
+			}
+			ws = wide(r, k, 20000)
+			forceMinimal = true
 		case 1:
 			ws = chain(r, []int{5, 30, 125, 126, 127, 128, 254, 255, 256}[r.Intn(9)], r.Bool())
 		case 2:
@@ -913,11 +928,8 @@ func genForeign(g *hx.Gen) {
 			ws = wordSet(r, randAlphabet(r))
 		}
 		mode := 1
-		if r.Chance(1, 3) {
+		if _, npre := sharing(ws, 0); r.Chance(1, 3) && !forceMinimal && npre <= 400 {
 			mode = []int{0, 2}[r.Intn(2)]
-			if len(ws) > 0 && minimalSize(ws) > 400 {
-				mode = 1
-			}
 		}
 		emit(ws, foreignStream(r, ws, mode, r.Intn(nOrders), r.Intn(nVals)))
 	}
@@ -1006,6 +1018,17 @@ func GenBig(g *hx.Gen) {
 			ws = append(ws, randWord(r, []byte("abcde"), 10))
 		}
 		emit(sortDedup(ws))
+	}
+	// the same sizes read from a stream with another node numbering (foreign.go), and held
+	// together with the encoding of a smaller set (history.go)
+	{
+		ws := chain(r, g.Pick(3500, 9000), true)
+		g.Emit(tcase{blank: '?', pats: patterns(r, ws[:min(len(ws), 50)], '?'), srcs: []source{{stream: foreignStream(r, ws, 1, ordReverse, valContig)}}}.line())
+		ws = randomWords(r, []byte("abcde"), g.Pick(3000, 8000), 10)
+		g.Emit(tcase{blank: '?', pats: patterns(r, ws[:50], '?'), srcs: []source{{stream: foreignStream(r, ws, 1, ordRandom, valSparse)}}}.line())
+		sub := subset(r, ws, 1, 2)
+		g.Emit(tcase{blank: '?', pats: patterns(r, ws[:50], '?'), srcs: []source{{words: ws}, {words: sub}, {stream: foreignStream(r, sub, 1, ordBFS, valGaps)}},
+			prog: []string{"e0", "e1", "e2", "c", "d0:1", "e0", "d3:0", "d1:2", "e1", "e3"}}.line())
 	}
 	if !g.Thorough() {
 		return
